@@ -251,7 +251,7 @@ PROPS = {
         'real': ['lsp/jsonrpc2 stream (Read/Write), conn (Call, Notify, run, write, replier), AsyncHandler, ReplyHandler, message and wire codecs'],
         'stubbed': ['io.ReadWriteCloser transport (parks at every Read/Write, tape-chosen chunking)', 'the peer (scripted, own 40-line frame codec)', 'sync.Mutex (channel mutex)', 'caller contexts'],
         'assumptions': ['states with a multi-ready select are not generated: a call is cancelled only while its caller is blocked in Call and no reply has been sent for it',
-                        'duplicate responses are not injected (a byte stream does not duplicate)', 'Content-Length values near 2^31 are excluded (slow allocation, not a hang)',
+                        'duplicate responses are not injected (a byte stream does not duplicate)', 'worker processes of this world run with GOMAXPROCS=1 (goroutines made runnable by one release run in run-queue order); lock hand-overs of the conn are seams for a random subset of runs', 'Content-Length values near 2^31 are excluded (slow allocation, not a hang)',
                         'absent and null JSON members are the same value on the wire'],
     },
     'C19': {
